@@ -87,7 +87,10 @@ class New(cssutils.util._BaseClass):
             # handle next time
             return
 
-        if self._PREFIX is not None:
+        if self._PREFIX is not None and typ == 'COMMENT':
+            # (a comment between "prefix|" and the name does not take the prefix)
+            prefix = None
+        elif self._PREFIX is not None:
             # as saved from before and reset to None
             prefix, self._PREFIX = self._PREFIX, None
         elif typ == 'universal' and '|' in val:
@@ -633,11 +636,11 @@ class Selector(cssutils.util.Base2):
         for item in self.seq:
             type_, val = item.type, item.value
             if (
-                type_.endswith('-selector')
-                or type_ == 'universal'
+                (type_.endswith('-selector') or type_ == 'universal')
                 and isinstance(val, tuple)
-                and val[0] not in (None, '*')
+                and val[0] not in (None, cssutils._ANYNS)
             ):
+                # ("*" is an ordinary URI, any namespace is cssutils._ANYNS)
                 uris.add(val[0])
         return uris
 
